@@ -102,6 +102,36 @@ def judge(case, rec, V):
         why = SC.capacity_violation(rec, items)
         if why:
             extra = ".with_running_or_scheduled" if any(i["kind"] != "new" for i in items) else ""
+            running_names = {t.unique_name for t in state["tasks"].values() if t.state == TaskState.RUNNING}
+            if any(i["kind"] == "new" and i["task"] in running_names for i in items):
+                # a task that is already RUNNING was decided again and its new decision takes part in the clash (finding F30)
+                extra += ".running_task_decided_again"
+            if case["policy"].get("batching") and extra == "":
+                # do the clashing new placements belong to tasks of one graph that depend on each other (an ancestor and its
+                # descendant planned at the same instant)?  In batching mode a task for which no batch can be formed gets no
+                # variables (finding F27), so the precedence chain through it is lost, and the planner emits no overlap
+                # constraint for dependent tasks.
+                wl = state["workload"]
+                new = [i for i in items if i["kind"] == "new"]
+
+                def reach(a, b):
+                    tg = wl.get_task_graph(a.task_graph)
+                    seen, todo = set(), [a]
+                    while todo:
+                        x = todo.pop()
+                        for c in tg.get_children(x):
+                            if c is b:
+                                return True
+                            if id(c) not in seen:
+                                seen.add(id(c))
+                                todo.append(c)
+                    return False
+
+                by_name = {t.unique_name: t for t in state["tasks"].values()}
+                clash = [(a, b) for a in new for b in new if a is not b and a["worker"] == b["worker"] and a["start"] < b["end"] and b["start"] < a["end"]]
+                if clash and all(by_name[a["task"]].task_graph == by_name[b["task"]].task_graph and
+                                 (reach(by_name[a["task"]], by_name[b["task"]]) or reach(by_name[b["task"]], by_name[a["task"]])) for a, b in clash):
+                    extra += ".dependent_tasks_planned_together"
             bad("plan_exceeds_capacity", f"{why}; occupancy items {[(i['task'], i['kind'], i['worker'] and state['info']['workers'][i['worker']]['name'], i['start'], i['end'], i['demand']) for i in items]}", extra)
     # side-effect freedom
     if rec["after"] != before:
